@@ -22,6 +22,7 @@ pub fn dispatch(ctx: &Ctx) -> i32 {
         "C18" => meta::check(ctx),
         "C19" => specs::check(ctx),
         "C09" => avsync::check(ctx),
+        "C17" => determinism::check(ctx),
         "C11" => frag::check(ctx, "C11"),
         "C06" => contract::check(ctx, contract::Which::C06),
         p => {
@@ -34,6 +35,9 @@ pub fn dispatch(ctx: &Ctx) -> i32 {
 pub fn replay(prop: &str, case: &serde_json::Value) -> i32 {
     if prop == "C09" {
         return avsync::replay(case);
+    }
+    if prop == "C17" {
+        return determinism::replay(case);
     }
     match case["engine"].as_str() {
         Some("E1") => e1::replay(prop, case),
@@ -63,6 +67,7 @@ pub mod widths;
 pub mod meta;
 pub mod specs;
 pub mod avsync;
+pub mod determinism;
 
 use oracle::report::{Meta, Tally};
 
